@@ -34,7 +34,8 @@ CONSTANTS
     EditionRows,    \* L2: define_rust_editions!, in declaration order (= RustEdition::ALL)
     Compat(_, _),   \* L2: RustTarget::is_compatible
     LatestEdition(_), \* L2: RustTarget::latest_edition
-    Forms           \* version string forms explored
+    Forms,          \* version string forms explored
+    NightlyZero     \* L2: what FromStr does for "1.0-nightly": "reject" (checked_sub) | "panic" (minor -= 1)
 
 (***************************************************************************)
 (* L1: Rust release history (trusted).  Constructs are what can be seen in *)
@@ -112,15 +113,16 @@ Generate(t, eopt) ==
     ELSE [out |-> "ok", feats |-> FeatNew(t, LatestEdition(t)), edition |-> LatestEdition(t)]
 
 (* FromStr for RustTarget.  inp = [form, n]; n is the minor written in the string.        *)
-(* "-nightly" forms are "the previous, maximally patched stable": minor -= 1 (u64!).     *)
+(* "-nightly" forms are "the previous, maximally patched stable": minor - 1; there is    *)
+(* none before 1.0 (an error value; the unchecked `minor -= 1` on u64 is the mutant).    *)
 NightlyForms == {"1.N-nightly", "1.N.P-nightly"}
 AllForms == {"1.N", "1.N.0", "1.N.P", "1.N-beta", "1.N.0-beta.2", "nightly"} \cup NightlyForms
 AllFormsD == AllForms \cup {"default"}
 Stable(m) == IF m < Earliest THEN [out |-> "too_early", t |-> 0] ELSE [out |-> "ok", t |-> m]
 Parse(form, n) ==
     CASE form = "nightly" -> [out |-> "ok", t |-> Nightly]
-      [] form \in NightlyForms -> IF n = 0 THEN [out |-> "panic", t |-> 0]  \* 0 - 1 on u64: overflow check
-                                  ELSE Stable(n - 1)
+      [] form \in NightlyForms -> IF n = 0 THEN [out |-> (IF NightlyZero = "panic" THEN "panic" ELSE "rejected"), t |-> 0]
+                                  ELSE Stable(n - 1)      \* minor.checked_sub(1), else an error value
       [] OTHER -> Stable(n)
 
 (* the version the user asked for (L1 reading of the string) *)
@@ -182,7 +184,7 @@ Accepted == Done /\ tgt.out = "ok" /\ gen.out = "ok"
 MeantV == IF inp.form = "default" THEN Latest ELSE Meant(inp.form, inp.n)
 
 TypeOK == /\ pc \in {"parse", "generate", "done"}
-          /\ tgt.out \in {"none", "ok", "too_early", "panic"}
+          /\ tgt.out \in {"none", "ok", "too_early", "rejected", "panic"}
           /\ gen.out \in {"none", "ok", "unsupported_edition"}
 
 (***************************************************************************)
@@ -217,8 +219,9 @@ ConstructMonotone == Accepted /\ tgt.t # Nightly =>
     IN Obs(gen.feats) \subseteq Obs(Generate(t2, inp.eopt).feats)
 
 (***************************************************************************)
-(* Strict laws: the property itself at the level of emitted constructs and *)
-(* of the parser.  A counterexample is a *prediction* about the real code; *)
+(* Strict law: the property itself at the level of emitted constructs.     *)
+(* (ParseTotal - no version string panics - is a law that must hold.)      *)
+(* A counterexample is a *prediction* about the real code;                 *)
 (* c14.py replays it on the real CLI before anything is concluded.         *)
 (***************************************************************************)
 Newer == IF Accepted THEN {c \in Emitted(gen.feats) : ~Allowed(c, MeantV, gen.edition)} ELSE {}
